@@ -26,7 +26,7 @@ fi
 cd /verif
 for c in "$@"; do
   start=$(date +%s)
-  out=$(VERIF_REPO="$scratch/repo" ./check.py "$c" --tier "$tier" 2>&1); rc=$?
+  out=$(VERIF_REPO="$scratch/repo" VERIF_EVIDENCE_DIR="$scratch/ev" ./check.py "$c" --tier "$tier" 2>&1); rc=$?
   end=$(date +%s)
   echo "== $(basename "$patch") $c rc=$rc ($((end-start))s)"
   echo "$out" | grep -E "VIOLATION|failing case|harness|KNOWN" | head -5 | cut -c1-400
